@@ -80,6 +80,7 @@ class QCase:
     self.script = ()
     self.script_done = False
     self.scrib = False
+    self.igmode = 0        # 0: every event is handled; 1: odd-numbered tokens are ignored by the chart; 2: even-numbered
     self.fresh = 0
     self.recalled = []     # (returned token or None) for handler-side recalls
     self.made = {}
@@ -92,6 +93,10 @@ class QCase:
         return qc.rs.HANDLED
       if e.signal_name.startswith("T_"):
         qc.log.append(e.signal_name)
+        if qc.is_ignored(e.signal_name):
+          # an event no state answers: it is offered (and logged) and then falls through to top
+          chart.temp.fun = chart.top
+          return qc.rs.SUPER
         if not qc.script_done:
           qc.script_done = True
           if qc.scrib:
@@ -112,6 +117,12 @@ class QCase:
     only.__name__ = "only"
     self.state = hsm.spy_on(only) if deco else only
     hsm.HsmWithQueues.start_at(self.chart, self.state)
+
+  def is_ignored(self, name):
+    if not self.igmode:
+      return False
+    n = int("".join(ch for ch in name if ch.isdigit()))
+    return (n % 2 == 1) if self.igmode == 1 else (n % 2 == 0)
 
   def new_event(self, prefix):
     name = "T_%s%d" % (prefix, self.fresh)
@@ -138,6 +149,7 @@ class Model:
     self.log = []
     self.script = ()
     self.script_done = False
+    self.igmode = 0
     self.fresh = 0
     self.recalled = []
 
@@ -151,6 +163,10 @@ class Model:
       return False
     e = self.pending.popleft()
     self.log.append(e)
+    if self.igmode:
+      n = int("".join(ch for ch in e if ch.isdigit()))
+      if (n % 2 == 1) if self.igmode == 1 else (n % 2 == 0):
+        return True          # offered, answered by no state: nothing else happens
     if not self.script_done:
       self.script_done = True
       for a in self.script:
@@ -172,11 +188,13 @@ class Model:
     return x
 
 
-def run_pair(host, deco, instr, np_, nd, op1, op2, script):
+def run_pair(host, deco, instr, np_, nd, op1, op2, script, igmode=0):
   """build the pre-state through the real API, apply op1 then op2 (op2 == -1: none) on the real chart and
   on the model; return (QCase, Model, results_real, results_model)"""
   qc = QCase(host, deco, instr)
+  qc.igmode = igmode
   m = Model()
+  m.igmode = igmode
   c = qc.chart
   for _ in range(np_):
     c.post_fifo(qc.new_event("P"))
@@ -202,11 +220,11 @@ def run_pair(host, deco, instr, np_, nd, op1, op2, script):
       rm.append(m.recall())
     elif name == "next_rtc":
       before = len(qc.log)
-      r = c.next_rtc()
-      rr.append((bool(r), len(qc.log) - before))
+      c.next_rtc()
+      rr.append(("dispatched", len(qc.log) - before))
       mb = len(m.log)
-      r2 = m.step()
-      rm.append((r2, len(m.log) - mb))
+      m.step()
+      rm.append(("dispatched", len(m.log) - mb))
     else:
       c.complete_circuit()
       rr.append(("empty", len(qc.pending()) == 0))
